@@ -1092,7 +1092,7 @@ class SMPLayer(Layer):
     def generate_legacy_ediv(self):
         """Generate the EDIV used in legacy pairing.
         """
-        return randint(0, 0x10000)
+        return randint(0, 0xFFFF)
 
     def generate_irk(self):
         """Generate the IRK used in legacy and secure pairing.
